@@ -614,6 +614,9 @@ class MiniEval:
                     if attr in ("items", "keys", "values"):
                         return lambda *a, _m=m: list(_m(*a))
                     return m
+        if base is None:
+            # Python itself raises here: None has no such attribute
+            raise Raised(f"AttributeError: 'NoneType' object has no attribute '{attr}' at `{u(e)[:60]}`", e)
         raise AnalysisError(f"{self.where}: attribute `{u(e)}` of an abstract value {type(base).__name__} is not modelled")
 
     def _comp(self, e):
